@@ -345,7 +345,7 @@ def World.electionVote (w : World) (r : Nat) (s : Rep) (v : View) (named : Optio
     let (hasLock, lockHdr) := match s.lock with
       | none => (false, hdrOf ⟨0, 0⟩ 0)
       | some (lv, lph, _) => (true, hdrOf lv lph)
-    if Gen.Bft.adoptHigher hasLock lockHdr (certHdr hq) then
+    if Gen.Bft.adoptHigher hasLock lockHdr (certHdr hq) (hdrOf v phase_ELECTION_VOTE) then
       -- b.HighQC = vote.HighQc (the block of the round is left alone)
       ({ s with lock := some (hq.view, hq.phase, hq.blk) }, "adopt")
     else (s, "keep")
